@@ -2291,7 +2291,8 @@ func tokenTypes() []simplexer.TokenType{
 	// `#[^\n\r]*` is neseccery to lex final line comment (i.e. `#`)
 	comment := `#[^\n\r]*`
 	retChar := `(\r|\n|\r\n)`
-	ret := fmt.Sprintf(`(([ \t]*(%s)?%s)+|%s)`, comment, retChar, comment)
+	// NOTE: the last line of the source may be a comment without a line break
+	ret := fmt.Sprintf(`(([ \t]*(%s)?%s)+([ \t]*%s)?|%s)`, comment, retChar, comment, comment)
 	
 	// NOTE: lexer deals with multiline chain
 	// (if parser does, shift/reduce conflict occurs)
